@@ -223,6 +223,7 @@ func settle(d time.Duration) {
 // journal records the case about to be executed, so that the driver can attribute a process crash (a panic on a
 // library goroutine cannot be recovered by the harness) or a stall to it.
 func journal(check, class string, c any) {
+	tick()
 	if envOut == "" {
 		return
 	}
